@@ -294,6 +294,23 @@ def r_getters(ctx: Ctx, model, prop="C20", rule="G-getter", only=None):
                                    nontrivial_key=("getter", g, case),
                                    sample={"rule": "G-getter", "getter": g, "case": case, "derived": got} if n % 9 == 0 else None)
     ctx.floor("getter cases interpreted", n, 100 if only is None else 10)
+    # the pressure route of the vaporisation enthalpy (press=..., no temperature): vapour minus liquid at that pressure - positive
+    for g in ("enthalpy_liquefaction", "enthalpy_vaporisation"):
+        if only is not None and g not in only:
+            continue
+        m = ci.find_method(g)
+        I = make_interp(model, backend_ok=True)
+
+        def thunk_p(I, g=g):
+            ads = Obj(cls=ci, label="adsorbate", attrs={"name": "ADS", "alias": ["ads"], "properties": {"backend_name": "BK"}, "_state": None, "_backend_mode": None})
+            return I.call_value(I.getattr_(ads, g, None), [], {"press": Num.atom("PR")}, None)
+        want = (Num.atom("CP.hmolar@('CoolProp.PQ_INPUTS', 'PR', '1')") - Num.atom("CP.hmolar@('CoolProp.PQ_INPUTS', 'PR', '0')")) * Num.const(F(1, 1000))
+        for oc in I.explore(thunk_p):
+            got = I.describe(oc.value) if oc.kind == "ok" else f"raises {oc.exc.name}"
+            ctx.ob(oc.kind == "ok" and oc.value == want,
+                   Finding(f"{prop}.{rule}", m.where, f"Adsorbate.{g}|press=,backend=ok",
+                           f"Adsorbate.{g}(press=PR): {got}; required {want.canon()} (saturated vapour minus saturated liquid at that pressure, in kJ/mol)"),
+                   nontrivial_key=("getter", g, "press"))
     if only is None:
         r_getter_history(ctx, model)
 
@@ -432,6 +449,49 @@ def r_lookup_shapes(ctx: Ctx, model, js):
     ctx.analysed["alias shapes probed"] = n
 
 
+def r_registry(ctx: Ctx):
+    """every name or alias designates exactly one adsorbate - also after a stored adsorbate is replaced: adsorbate_to_db(new, overwrite=True)
+    leaves the in-memory list with the new object in place of the one it replaces (by name), and a plain upload appends exactly once
+    (interpreted on the fault-free paths with a concrete list; membership and removal go through Adsorbate.__eq__)"""
+    from .C08 import setup as setup_store
+    from .C09 import mk_ads
+    ctx.rule("G-registry: after adsorbate_to_db(new, overwrite=True) ADSORBATE_LIST holds `new` and no longer the same-named object it "
+             "replaces; after a plain upload it holds the uploaded object once; other entries stay")
+    model, mach = setup_store(ctx.root)
+    I = mach.I
+    I.user_eq = True
+    saved, mach.inject = mach.inject, False
+    fi = model.func("pygaps.parsing.sqlite.adsorbate_to_db")
+    ci = model.cls("pygaps.core.adsorbate.Adsorbate")
+    n = 0
+    try:
+        for ow in (True, False):
+            reg = []
+
+            def thunk(I, ow=ow, reg=reg):
+                old = Obj(cls=ci, label="old", attrs={"name": "ADS", "alias": ["ads", "oldalias"], "_state": None, "_backend_mode": None, "properties": {"formula": "F"}})
+                other = Obj(cls=ci, label="other", attrs={"name": "OTH", "alias": ["oth"], "_state": None, "_backend_mode": None, "properties": {}})
+                new = mk_ads(I)
+                new.label = "new"
+                reg.clear()
+                reg.extend([other, old] if ow else [other])
+                I.const_overrides[("pygaps.data", "ADSORBATE_LIST")] = reg
+                I.call_func(fi, [new], {"db_path": "USER.db", "overwrite": ow, "verbose": False}, None)
+                return [x.label for x in reg]
+            for oc, trace in mach.explore(thunk):
+                if oc.kind != "ok":
+                    continue
+                n += 1
+                ctx.ob(oc.value == ["other", "new"],
+                       Finding("C20.G-registry", fi.where, f"adsorbate_to_db|overwrite={ow}|registry={oc.value}",
+                               f"adsorbate_to_db(new, overwrite={ow}) with the list holding {['other', 'old (same name)'] if ow else ['other']} leaves "
+                               f"{oc.value}; required ['other', 'new']: the name and the aliases must resolve to the uploaded object only"),
+                       nontrivial_key=("registry", ow, tuple(c for _, c in oc.decisions)))
+    finally:
+        mach.inject = saved
+    ctx.floor("completed upload paths inspected for the adsorbate registry", n, 4)
+
+
 def run(ctx: Ctx):
     model = load(ctx.root)
     js = load_json(ctx.root)
@@ -448,6 +508,7 @@ def run(ctx: Ctx):
     model8, mach = setup_store(ctx.root)
     r_lists(ctx, model8, mach, prop="C20", rule="G-lookup", kinds=("adsorbate",))
     r_getters(ctx, model)
+    r_registry(ctx)
     ctx.extra["exhaustive"] = True
     ctx.analysed["adsorbates"] = len(js)
 
